@@ -1,0 +1,34 @@
+//go:build verif
+
+package http
+
+import (
+	"net"
+	"strings"
+
+	"github.com/fatedier/frp/verif"
+)
+
+// CanonicalHost (C06 "host comparison ignores letter case and, for HTTP and
+// CONNECT, a port suffix and a trailing dot"): the canonical form is the
+// lower-cased host with the port suffix removed first and one trailing dot
+// removed after that ("App.Example.com.:8080" and "app.example.com" have the
+// same canonical form); a host whose port suffix cannot be split is an error
+// with no host.
+//
+//verif:contract ~/pkg/util/http.CanonicalHost
+//verif:props C06
+func verif_CanonicalHost(host string) {
+	lower := strings.ToLower(host)
+	out, err := CanonicalHost(host)
+	if hasPort(lower) {
+		h, _, e := net.SplitHostPort(lower)
+		if e != nil {
+			verif.Ensures(err != nil && out == "", "unsplittable_host_is_an_error")
+		} else {
+			verif.Ensures(err == nil && out == strings.TrimSuffix(h, "."), "port_removed_then_trailing_dot_removed")
+		}
+	} else {
+		verif.Ensures(err == nil && out == strings.TrimSuffix(lower, "."), "case_folded_and_trailing_dot_removed")
+	}
+}
